@@ -596,6 +596,10 @@ type SaveScenario struct {
 	// Over: a longer configuration file already exists at the destination (an earlier save with
 	// longer values): saving must replace it, not merely overwrite its beginning
 	Over bool `json:"over,omitempty"`
+	// Sibling: another file with the configuration's base name and an extension the configuration library
+	// also knows sits next to evnode.yaml: "json" (a stale dump of other values), "toml" (not YAML at all).
+	// The documented configuration file is evnode.yaml; what lies next to it must not matter.
+	Sibling string `json:"sibling,omitempty"`
 }
 
 func runSaveLoad(sc SaveScenario, tmp string) world.Verdict {
@@ -656,6 +660,17 @@ func runSaveLoad(sc SaveScenario, tmp string) world.Verdict {
 	if !reflect.DeepEqual(written, model) {
 		return world.Fail("C18/save-mutates", "%s: SaveAsYaml changed the configuration it was asked to write", desc)
 	}
+	switch sc.Sibling {
+	case "json":
+		stale := `{"node": {"aggregator": true, "block_time": "7h", "max_pending_headers_and_data": 77}, "da": {"mempool_ttl": 7, "namespace": "stale"}, "chain_id": "stale-chain"}`
+		_ = os.WriteFile(filepath.Join(home, config.AppConfigDir, "evnode.json"), []byte(stale), 0o600)
+		labels = append(labels, "sibling-file:json")
+		desc += " with a stale evnode.json next to it"
+	case "toml":
+		_ = os.WriteFile(filepath.Join(home, config.AppConfigDir, "evnode.toml"), []byte("[node]\naggregator = true\nblock_time = \"7h\"\n"), 0o600)
+		labels = append(labels, "sibling-file:toml")
+		desc += " with an evnode.toml next to it"
+	}
 	res := loadConfig(sc.Via, home, nil, nil)
 	file, _ := os.ReadFile(filepath.Join(home, config.AppConfigDir, config.ConfigName))
 	switch {
@@ -714,6 +729,7 @@ func runSaveLoad(sc SaveScenario, tmp string) world.Verdict {
 
 func genSaveScenario(t *rapid.T) SaveScenario {
 	sc := SaveScenario{Via: rapid.SampledFrom(vias).Draw(t, "via"), Over: rapid.IntRange(0, 3).Draw(t, "over") == 0}
+	sc.Sibling = rapid.SampledFrom([]string{"", "", "", "json", "toml"}).Draw(t, "sibling")
 	var cand []*leaf
 	for i := range leaves {
 		if !exemptFields[leaves[i].GoName] {
